@@ -584,6 +584,49 @@ pub fn run_e1(ctx: &Ctx, prop: P) -> i32 {
         eprintln!("[C08] F8b under completion orders x hint patterns: {} cases, {} schedules, {:.1}s", acc.get("cases"), acc.get("schedules"), ctx.t0.elapsed().as_secs_f64());
         rep.push("F8b x hint patterns x completion orders (controlled executor)", acc, true, famb.len());
     }
+    if prop == P::C09 || prop == P::C02 {
+        // C09: "each at most once per solver" also when requests overlap (asynchronous provider, providers
+        // that read metadata through the cache from sort_candidates); C02: the verdict must not depend on
+        // the order in which metadata happened to be fetched - both under completion orders
+        let q = ctx.tier == Tier::Quick;
+        let label: &'static str = if prop == P::C09 { "C09" } else { "C02" };
+        let fam = Decorated::new("F3 skeletons", skeletons(), 1, false, &|d| !matches!(d, Deco::Soft(_) | Deco::Hint(..)));
+        let cap = if q { 150 } else { 3000 };
+        let mut plans: Vec<AsyncPlan> = vec![AsyncPlan { sort_cb: SortCallback::None, hint_mask: None, mask: K_CANDS | K_DEPS, pairs: false, hint: None, complete_cap: cap, dev_bound: if q { 1 } else { 2 }, dev_cap: cap }];
+        if prop == P::C09 {
+            plans.push(AsyncPlan { sort_cb: SortCallback::DepsOfSorted, hint_mask: None, mask: K_CANDS | K_DEPS, pairs: false, hint: None, complete_cap: cap, dev_bound: if q { 1 } else { 2 }, dev_cap: cap });
+        } else {
+            plans.push(AsyncPlan { sort_cb: SortCallback::None, hint_mask: None, mask: K_CANDS | K_DEPS, pairs: false, hint: Some(Hint::All), complete_cap: cap, dev_bound: if q { 1 } else { 2 }, dev_cap: cap });
+            plans.push(AsyncPlan { sort_cb: SortCallback::None, hint_mask: None, mask: K_CANDS | K_DEPS, pairs: true, hint: None, complete_cap: cap, dev_bound: 1, dev_cap: cap });
+        }
+        let fams: Vec<(Box<dyn Family>, u64)> = vec![(Box::new(fam), 1), (Box::new(F8b), 1), (Box::new(F10), if q { 997 } else { 61 })];
+        for (k, (fam, stride)) in fams.iter().enumerate() {
+            let opts = SweepOpts {
+                threads: threads(),
+                wall_limit_s: 120,
+                on_stuck: Box::new(|f, idx| {
+                    eprintln!("NOTE: async exploration stuck at {f}/{idx}");
+                    None
+                }),
+                fam_no: 94 + k,
+                stride: *stride,
+                offset: if *stride > 1 { ctx.seed % *stride } else { 0 },
+            };
+            let acc = sweep(&**fam, &opts, &|idx, case, acc| {
+                if !is_wellformed(case) {
+                    return;
+                }
+                acc.count("cases");
+                for (pi, pl) in plans.iter().enumerate() {
+                    e2::check_c10_c11(label, case, pl, (94 + k, idx, pi as u32), acc);
+                }
+            });
+            total_states += acc.get("cases");
+            total_transitions += acc.evaluations;
+            eprintln!("[{label}] {} under completion orders: {} cases, {} schedules, {:.1}s", fam.name(), acc.get("cases"), acc.get("schedules"), ctx.t0.elapsed().as_secs_f64());
+            rep.push(&format!("{} x completion orders (controlled executor)", fam.name()), acc, *stride == 1, fam.len());
+        }
+    }
     if prop == P::C04 {
         // termination without panicking also for providers that use the SolverCache from inside
         // sort_candidates, under completion orders of the provider's answers
